@@ -79,55 +79,46 @@ func checkC18(c *Ctx, r *Report) {
 		}
 		r4.guard(f, "return nil", rets, "len(rawCerts) >= 1", edgeIntBound(func(v ssa.Value) bool { return isLen(v, "rawCerts") }, 1, intInf, true), nil)
 		// verified flag: phi (or cell) true only past Code==SHA2_256 && bytes.Equal(h.Digest, sha256(leaf))
-		var flag *ssa.Phi
-		for _, b := range f.Blocks {
-			if i := ifOf(b); i != nil {
-				// the hash-match flag: a boolean phi with a constant-true and a constant-false operand that decides an If
-				if p, ok := i.Cond.(*ssa.Phi); ok {
-					hasT, hasF := false, false
-					for _, l := range phiLeaves(p) {
-						if bv, isC := constBool(l); isC {
-							if bv {
-								hasT = true
-							} else {
-								hasF = true
-							}
-						}
-					}
-					if hasT && hasF {
-						flag = p
-					}
-				}
-			}
+		sha2 := constIntObj(c, "github.com/multiformats/go-multihash", "SHA2_256")
+		isFieldNamed := func(name string) func(ssa.Value) bool {
+			return func(v ssa.Value) bool { fl, _ := loadOfField(strip2(v)); return fl != nil && fl.Name() == name }
 		}
-		if flag == nil {
-			r4.Fail(vrK+": hash-match flag", f.Pos(), "the boolean recording the hash match was not identified", "")
+		isHash := func(x ssa.Value) bool {
+			return derivesFrom(x, func(y ssa.Value) bool { return isResultOfCall(y, 0, "crypto/sha256.Sum256") != nil })
+		}
+		conj := []conjunct{
+			{"h.Code == SHA2_256", func(th func(ssa.Value) ssa.Value) condPred {
+				isSha := func(v ssa.Value) bool { k, ok := constInt(th(v)); return ok && k == sha2 }
+				return eqCond(isFieldNamed("Code"), isSha)
+			}},
+			{"bytes.Equal(h.Digest, sha256(leaf))", func(th func(ssa.Value) ssa.Value) condPred {
+				return valCond(func(v ssa.Value) bool {
+					ci := isResultOfCall(v, 0, "bytes.Equal")
+					if ci == nil {
+						return false
+					}
+					a0, a1 := ci.Common().Args[0], ci.Common().Args[1]
+					isH := func(x ssa.Value) bool {
+						return derivesFrom(x, func(y ssa.Value) bool { return isHash(y) || (th(y) != y && isHash(th(y))) })
+					}
+					return (isFieldNamed("Digest")(a0) && isH(a1)) || (isFieldNamed("Digest")(a1) && isH(a0))
+				})
+			}},
+		}
+		isCertHashes := func(v ssa.Value) bool { return isParamVar(c, v, "certHashes") }
+		mr := matchEdges(c, f, isCertHashes, conj)
+		if mr == nil {
+			r4.Fail(vrK+": hash match", f.Pos(), "no test that the certificate's SHA-256 is among the pinned hashes was found (loop with flag, helper, or slices.ContainsFunc over certHashes)", "")
 		} else {
-			r4.guard(f, "return nil", rets, "verified", edgeBool(isValue(flag), true), nil)
-			es := phiEdgesWhere(flag, func(v ssa.Value) bool { b, ok := constBool(v); return ok && b })
-			sha2 := constIntObj(c, "github.com/multiformats/go-multihash", "SHA2_256")
-			codeEq := edgeIntBound(func(v ssa.Value) bool { fl, _ := loadOfField(strip2(v)); return fl != nil && fl.Name() == "Code" }, sha2, sha2, false)
-			digEq := edgeBool(func(v ssa.Value) bool {
-				ci := isResultOfCall(v, 0, "bytes.Equal")
-				if ci == nil {
-					return false
+			r4.guard(f, "return nil", rets, "certificate hash is among the pinned hashes ["+mr.form+"]", edgeSet(mr.edges), nil)
+			for _, cj := range conj {
+				missing := false
+				for _, m := range mr.missing {
+					if m == cj.name {
+						missing = true
+					}
 				}
-				a0, a1 := ci.Common().Args[0], ci.Common().Args[1]
-				isDigest := func(x ssa.Value) bool { fl, _ := loadOfField(strip2(x)); return fl != nil && fl.Name() == "Digest" }
-				isHash := func(x ssa.Value) bool {
-					return derivesFrom(x, func(y ssa.Value) bool {
-						s := isResultOfCall(y, 0, "crypto/sha256.Sum256")
-						return s != nil
-					})
-				}
-				return (isDigest(a0) && isHash(a1)) || (isDigest(a1) && isHash(a0))
-			}, true)
-			for _, g := range []struct {
-				n string
-				e EdgePred
-			}{{"h.Code == SHA2_256", codeEq}, {"bytes.Equal(h.Digest, sha256(leaf))", digEq}} {
-				w, n := (&Cut{Fn: f, TargetEdge: edgeSet(es), EdgeCut: g.e}).Run(c)
-				r4.Check(w == "" && len(es) > 0, vrK+": verified=true only past "+g.n, f.Pos(), n+1, "", "a certificate is accepted without its SHA-256 being one of the pinned hashes", w)
+				r4.Check(!missing, vrK+": verified=true only past "+cj.name, f.Pos(), 1, mr.form, "a certificate is accepted without its SHA-256 being one of the pinned hashes", mr.form)
 			}
 			// the hash is over the leaf that is then parsed
 			sums := callsIn(f, "crypto/sha256.Sum256")
@@ -308,6 +299,44 @@ func checkC18(c *Ctx, r *Report) {
 			fl, base := loadOfField(retVal(ret, 0))
 			r2.Check(fl != nil && fl.Name() == "tlsConf" && isLoadOfField(cmT+".currentConfig")(strip2(base)), "GetConfig: serves currentConfig", instrPos(ret), 1, "", "the listener serves a certificate other than the current one", "")
 		}
+	}
+	// the listener asks the manager on every handshake: whatever writes tls.Config.GetConfigForClient in the
+	// package installs a function whose answer is the result of a GetConfig call made inside that function
+	{
+		n := 0
+		for _, f := range c.FnsOfPkg(wtPkg) {
+			allInstrs(f, func(in ssa.Instruction) {
+				st, ok := in.(*ssa.Store)
+				if !ok {
+					return
+				}
+				fl, _ := fieldAddrOf(st.Addr)
+				if fl == nil || fl.Name() != "GetConfigForClient" || fl.Pkg() == nil || fl.Pkg().Path() != "crypto/tls" {
+					return
+				}
+				n++
+				var g *ssa.Function
+				switch x := strip2(st.Val).(type) {
+				case *ssa.MakeClosure:
+					g = x.Fn.(*ssa.Function)
+				case *ssa.Function:
+					g = x
+				}
+				if g == nil {
+					r2.Fail(fnKey(f)+": GetConfigForClient", instrPos(in), "the installed function could not be resolved", "")
+					return
+				}
+				for _, ret := range returnsOf(g) {
+					v := retVal(ret, 0)
+					if isNilConst(v) {
+						continue
+					}
+					r2.Check(isResultOfCall(v, 0, "(*"+cmT+").GetConfig") != nil, fnKey(f)+": each handshake is served the manager's configuration of that moment", instrPos(ret), 1, "",
+						"the listener keeps serving the certificate that was current when it was created; after a roll-over it is no longer the advertised current certificate", "")
+				}
+			})
+		}
+		r2.Check(n > 0, "Listen: installs GetConfigForClient", token.NoPos, n, "", "", "")
 	}
 	if f := r2.need("(*" + cmT + ").background"); f != nil {
 		fs := append([]*ssa.Function{f}, f.AnonFuncs...)
@@ -565,29 +594,65 @@ func checkC18(c *Ctx, r *Report) {
 				exitEdge := []CFGEdge{{header, 1}}
 				w, n := (&Cut{Fn: cb, Target: inSet(sets), EdgeCut: edgeSet(exitEdge)}).Run(c)
 				r5.Check(w == "", upK+"$cb: verified=true only after the loop over all dialled hashes", instrPos(sets[0]), n+1, "", "", w)
-				// match test: boolean that is true only past Code== and bytes.Equal on Digest
-				isMatchFlag := func(v ssa.Value) bool {
-					switch x := v.(type) {
-					case *ssa.Phi:
-						es := phiEdgesWhere(x, func(y ssa.Value) bool { b, ok := constBool(y); return ok && b })
-						if len(es) == 0 {
-							return false
+				// match test: the dialled hash is among the received ones (same Code, equal Digest), however the membership is written
+				isField := func(name string, th func(ssa.Value) ssa.Value) func(ssa.Value) bool {
+					return func(v ssa.Value) bool {
+						for _, y := range []ssa.Value{v, th(v)} {
+							if fl, _ := loadOfField(strip2(y)); fl != nil && fl.Name() == name {
+								return true
+							}
 						}
-						w1, _ := (&Cut{Fn: cb, TargetEdge: edgeSet(es), EdgeCut: edgeBool(func(y ssa.Value) bool { return isResultOfCall(y, 0, "bytes.Equal") != nil }, true)}).Run(c)
-						w2, _ := (&Cut{Fn: cb, TargetEdge: edgeSet(es), EdgeCut: eqEdge(func(v ssa.Value) bool { fl, _ := loadOfField(strip2(v)); return fl != nil && fl.Name() == "Code" },
-							func(v ssa.Value) bool { fl, _ := loadOfField(strip2(v)); return fl != nil && fl.Name() == "Code" }, true)}).Run(c)
-						return w1 == "" && w2 == ""
-					case *ssa.Call:
-						return calleeKey(x) == "slices.ContainsFunc"
+						return false
 					}
-					return false
 				}
-				// from the body entry, the next header visit / loop exit must pass the match-true edge
-				body := []CFGEdge{{header, 0}}
-				q := &Cut{Fn: cb, FromEdges: body, EdgeCut: edgeBool(isMatchFlag, true), Target: func(in ssa.Instruction) bool {
-					return in.Block() == header && instrIndex(in) == 0
-				}}
-				r5.mustPass(cb, upK+"$cb: every dialled hash must match a received hash before the next one is examined", q, 1)
+				fromDialled := func(th func(ssa.Value) ssa.Value) func(ssa.Value) bool {
+					return func(v ssa.Value) bool {
+						isFV := func(y ssa.Value) bool { f, ok := y.(*ssa.FreeVar); return ok && f.Name() == "certHashes" }
+						return derivesFrom(v, isFV) || derivesFrom(th(v), isFV)
+					}
+				}
+				conj := []conjunct{
+					{"sent.Code == rcvd.Code", func(th func(ssa.Value) ssa.Value) condPred {
+						isC := isField("Code", th)
+						dl := fromDialled(th)
+						return eqCond(func(v ssa.Value) bool { return isC(v) && dl(v) }, func(v ssa.Value) bool { return isC(v) && !dl(v) })
+					}},
+					{"bytes.Equal(sent.Digest, rcvd.Digest)", func(th func(ssa.Value) ssa.Value) condPred {
+						return valCond(func(v ssa.Value) bool {
+							ci := isResultOfCall(v, 0, "bytes.Equal")
+							if ci == nil {
+								return false
+							}
+							a0, a1 := ci.Common().Args[0], ci.Common().Args[1]
+							isD := isField("Digest", th)
+							dl := fromDialled(th)
+							return isD(a0) && isD(a1) && (dl(a0) != dl(a1))
+						})
+					}},
+				}
+				isRcvd := func(v ssa.Value) bool {
+					return isResultOfCall(strip2(v), 0, wtPkg+".decodeCertHashesFromProtobuf") != nil
+				}
+				mr := matchEdges(c, cb, isRcvd, conj)
+				if mr == nil {
+					r5.Fail(upK+"$cb: membership test", cb.Pos(), "no test that a dialled hash is among the received hashes was found (loop with flag, helper, or slices.ContainsFunc over the decoded hashes)", "")
+				} else {
+					for _, cj := range conj {
+						missing := false
+						for _, m := range mr.missing {
+							if m == cj.name {
+								missing = true
+							}
+						}
+						r5.Check(!missing, upK+"$cb: a dialled hash counts as confirmed only past "+cj.name, cb.Pos(), 1, mr.form, "a dialled hash is taken as confirmed although no received hash equals it", mr.form)
+					}
+					// from the body entry, the next header visit / loop exit must pass the match-true edge
+					body := []CFGEdge{{header, 0}}
+					q := &Cut{Fn: cb, FromEdges: body, EdgeCut: edgeSet(mr.edges), Target: func(in ssa.Instruction) bool {
+						return in.Block() == header && instrIndex(in) == 0
+					}}
+					r5.mustPass(cb, upK+"$cb: every dialled hash must match a received hash before the next one is examined", q, 1)
+				}
 				// and the callback's nil return passes the flag assignment
 				for _, ret := range successReturns(cb) {
 					w, n := (&Cut{Fn: cb, Target: isInstr(ret), Sep: inSet(sets)}).Run(c)
